@@ -79,6 +79,18 @@ theorem n_stabilizers_formula (Lx Ly Lz : Nat) :
 theorem k_value (Lx Ly Lz : Nat) : (lattice Lx Ly Lz).toCodeData.k = 3 := by
   simp only [Lattice.toCodeData, CodeData.k, lattice_logX]; rfl
 
+/-- CSS structure for every supported size: a stabilizer location is a `'vertex'` whose operator carries only Z
+    (on exactly 6 qubits) or a `'face'` whose operator carries only X (on exactly 4 qubits). -/
+theorem stabilizer_shape (Lx Ly Lz : Nat) (hLx : 2 ≤ Lx) (hLy : 2 ≤ Ly) (hLz : 2 ≤ Lz) {s : Coord}
+    (hs : s ∈ (lattice Lx Ly Lz).stabs) :
+    (Toric3DCode.stabilizerType Lx Ly Lz s = some StabType.vertex ∧
+      ∃ ks, (lattice Lx Ly Lz).getStab s = uop ks Pauli.Z ∧ ks.length = 6) ∨
+    (Toric3DCode.stabilizerType Lx Ly Lz s = some StabType.face ∧
+      ∃ ks, (lattice Lx Ly Lz).getStab s = uop ks Pauli.X ∧ ks.length = 4) := by
+  rw [lattice_stabs] at hs
+  rw [lattice_getStab]
+  exact stab_shape hLx hLy hLz hs
+
 /-- `get_deformation('XZZX', axis)` on every qubit of every size: the qubit has an axis (x, y, z
     for the three blocks of `get_qubit_coordinates`), and the deformation is X↔Z exactly on the
     qubits whose axis is the deformation axis, the identity elsewhere. -/
